@@ -74,7 +74,12 @@ def work(ident, prop, tier, tree):
         timeout = 20000 if tier == "quick" else 60000
         res = K.verify(k, repo)
         bounded = None
-        if res.error and res.error.startswith("unsupported") and k.generic_replay:
+        if res.error and res.error.startswith("unsupported") and getattr(k, "bounded_driver", None):
+            bd = k.bounded_driver
+            rp = run_replay(bd, tree)
+            bounded = {"instances": 1, "undecided": 0, "bound": f"native driver {bd['driver']} (seeded random search)",
+                       "violations": [{"kwargs": bd, "detail": rp.get("detail", "")}] if rp.get("reproduced") else []}
+        elif res.error and res.error.startswith("unsupported") and k.generic_replay:
             # the function (as it is now) is outside the verifier's reach: bounded stand-in, never counted as proof
             from pyvc import replaygen
             try:
@@ -265,8 +270,9 @@ def main(argv=None):
             path = os.path.join("replays", f"{prop}_{h}.json")
             json.dump({"property": prop, "obligation": r["ident"] + "/bounded-stand-in", "tree": tree,
                        "solver": {"status": "not applicable: " + r["error"]},
-                       "witness": {"driver": "generic", "qualname": r["ident"].split("[")[0], "contract": r["ident"],
-                                   "kwargs": v["kwargs"]},
+                       "witness": (v["kwargs"] if "driver" in v["kwargs"] else
+                                   {"driver": "generic", "qualname": r["ident"].split("[")[0], "contract": r["ident"],
+                                    "kwargs": v["kwargs"]}),
                        "replay": {"reproduced": True, "detail": v["detail"]}, "bounded": b["bound"]},
                       open(os.path.join(ROOT, path), "w"), indent=1)
             viol_lines.append(f"VIOLATION property={prop} replay={path}")
